@@ -445,6 +445,44 @@ theorem gen_space_patch_spec_partial (self : ErrorEstimator) (h : Inv self.bdr_m
     rw [hcall]
     rfl
 
+/-- **the space patch of the generated code, full specification** (`space_patch_spec_full` of `Props/C09.lean`): for an
+element `c` and EVERY neighbour `n ≠ c` across `x = x1 / x0` (seam included) the pair evaluation of the generated
+`sobolev_space` hands `(common time interval, left, right)` to `__integrate_h_1_2`, and the generated `__integrate_h_1_2`
+(outer rule well-formed and non-empty, `np.allclose` = `closesCurve`) passes its assertion and returns
+`h_t · Σ_i w_i · sem(t_i, call)` for ONE seminorm call, where EITHER the pair is not a same-piece seam pair and the call runs
+forward over exactly the union of the two space intervals (the definition) OR the pair is adjacent through the seam on one
+piece and the call is `seminorm_h_1_2(f, left.x0, right.x1, γ)` with `right.x1 ≤ left.x0`: the complementary arc, run
+backwards (finding F5; `gen_seam_same_piece_witness` shows the case occurs) -/
+theorem gen_space_patch_spec_full (self : ErrorEstimator) (h : Inv self.bdr_mesh) (hg : self.bdr_mesh.glue = true)
+    (h0 : self.bdr_mesh.xmin = 0) (hL : self.bdr_mesh.xmax = self.gamma_len)
+    (hwf : self.gauss.points.length = self.gauss.weights.length) (hne : self.gauss.points ≠ [])
+    (c : Cell) (hc : c ∈ self.bdr_mesh.leaves) (n : Cell) (hnc : n ≠ c)
+    (hn : n ∈ nbrs self.bdr_mesh c .right ∨ n ∈ nbrs self.bdr_mesh c .left)
+    (s12 : (Rat → Rat → Nat → Rat) → Rat → Rat → Rat → Nat → Rat)
+    (s12pw : (Rat → Rat → Nat → Rat) → Rat → Rat → Rat → Nat → Rat → Rat → Nat → Rat) (residual : Rat → Rat → Nat → Rat) :
+    ∃ l r call, ((l = c ∧ r = n) ∨ (l = n ∧ r = c)) ∧
+      (∀ F : (Rat → Rat → Nat → Rat) → Rat → Rat → Cell → Option Cell → Except String Rat,
+        evSpace self.gamma_len (fun p => F residual p.ta p.tb p.left p.right) c n =
+          F residual (max n.t0 c.t0) (min n.t1 c.t1) l (some r)) ∧
+      integrate_h_1_2 self (fun rs t a b g => .ok (s12 rs t a b g))
+        (fun rs t a1 b1 g1 a2 b2 g2 => if closesCurve self.gamma_len b1 a2 = true then .ok (s12pw rs t a1 b1 g1 a2 b2 g2)
+          else .error "assert:pw-touch")
+        (fun _ a b => closesCurve self.gamma_len a b) residual (max n.t0 c.t0) (min n.t1 c.t1) l (some r) =
+        .ok ((min n.t1 c.t1 - max n.t0 c.t0) * dot (self.gauss.points.map fun q =>
+          semOf (s12 residual) (s12pw residual) (max n.t0 c.t0 + (min n.t1 c.t1 - max n.t0 c.t0) * q) call) self.gauss.weights) ∧
+      ((¬ SeamSamePiece self.gamma_len l r ∧ call.oriented ∧ ∀ q x, call.covers q x ↔ (covers l q x ∨ covers r q x)) ∨
+       (SeamSamePiece self.gamma_len l r ∧ call = .same l.x0 r.x1 l.piece ∧ r.x1 ≤ l.x0 ∧ ¬ call.oriented ∧
+        (∀ ξ : Rat, 0 ≤ ξ → ξ ≤ 1 → r.x1 ≤ l.x0 + (r.x1 - l.x0) * ξ ∧ l.x0 + (r.x1 - l.x0) * ξ ≤ l.x0) ∧
+        (∀ q x, r.x1 < x → x < l.x0 → ¬ covers l q x ∧ ¬ covers r q x))) := by
+  obtain ⟨l, r, call, hp, hlr, _, _, _, hcall, hspec⟩ :=
+    space_patch_spec_full self.bdr_mesh h hg self.gamma_len h0 hL c hc n hnc hn
+  refine ⟨l, r, call, hlr, fun F => ?_, ?_, hspec⟩
+  · unfold evSpace; rw [hp]; rfl
+  · rw [gen_integrate_h_1_2_eq self hwf hne]
+    unfold integrateH12
+    rw [hcall]
+    rfl
+
 /-- **the same-piece seam pair in the generated code** (negation witness of the full patch statement, the known finding): on
 the closed one-piece mesh with four elements `[0,1], …, [3,4]` (`L = 4`), outer rule `{1/2}`, `seminorm_h_1_2(f, a, b, γ) ↦ b - a`:
 the generated `sobolev_space` of the element `[0,1]`, with `self.__integrate_h_1_2` bound to the generated method, evaluates the
